@@ -187,6 +187,13 @@ cs_format(char *str, size_t maxlen, struct qb_log_callsite *cs, va_list ap)
 	len = vsnprintf(str, maxlen, cs->format, ap_copy);
 	va_end(ap_copy);
 
+	if (len <= 0) {
+		/* nothing there (or an output error): no last character */
+		if (maxlen > 0) {
+			str[0] = '\0';
+		}
+		return;
+	}
 	if (len > maxlen) {
 		len = maxlen;
 	}
